@@ -10,7 +10,8 @@ AUDIT = "Ymq.Audit.C11"
 THEOREMS = ["Ymq.C11." + t for t in (
     "verify_sound combine_valid combine_undivisible unpack_pack normFactors_prod unpack_pack_verify "
     "pack_one_becomes_two add_inv history_inv cycles_valid try_factor_proper even_combination_square "
-    "kernel_step_proper verify_false_negative").split()]
+    "kernel_step_proper verify_false_negative doubles_disjoint_add doubles_disjoint pack_total add_no_panic "
+    "add_inv2 history_no_panic walk_root_max").split()]
 PROFILES = ["release", "chk"]
 TIMEOUT = 60.0
 RULE = ("synthetic histories for the real RelationSet: n = p1*p2 (16..31-bit primes known to the generator, square roots "
